@@ -171,8 +171,11 @@ class ReadSets:
     def param_reads(self, finfo):
         a = finfo.node.args
         env = {}
-        for p in a.posonlyargs + a.args + a.kwonlyargs:
-            if p.arg in ("self", "cls"):
+        for i, p in enumerate(a.posonlyargs + a.args + a.kwonlyargs):
+            if i == 0 and finfo.cls is not None and not finfo.is_staticmethod:
+                # the receiver of a memoised method is part of the cache key (a classmethod's `cls` carries no instance state)
+                if not finfo.is_classmethod:
+                    env[p.arg] = {finfo.cls.name}
                 continue
             env[p.arg] = self.types_in(p.annotation)
         if a.vararg:
